@@ -226,6 +226,8 @@ def pool_entry(draw):
             nocc = draw(st.sampled_from([1, 1, 2]))
             parts.append([flat, ["uniform_occupancy(A.%d)" % draw(st.integers(1, 4)) for _ in range(nocc)]])
             levels = gen.levels_of(flat, nocc)
+        if draw(st.booleans()):
+            parts.append(["N", []])          # an explicitly empty partitioning entry is legal
         sp["partitioning"] = {"Z": parts}
         sp["loop_order"] = {"Z": draw(gen.interleave([pre + levels, ["N"]]))}
         return {"yaml": S.to_yaml(sp), "metrics": False, "kind": kind}
@@ -239,6 +241,9 @@ def pool_entry(draw):
         sp = draw(gen.spec_plain())
     elif kind == "shape":
         sp = draw(gen.case_shape(max_extent=3))["spec"]
+        unp = [v.upper() for v in S.expr_vars(sp["exprs"][0]) if v.upper() not in [k for k, _ in sp["partitioning"].get("Z", [])]]
+        if unp and draw(st.booleans()):
+            sp["partitioning"].setdefault("Z", []).append([draw(st.sampled_from(unp)), []])
     else:
         sp = draw(gen.case_flat(max_extent=3))["spec"]
     return {"yaml": S.to_yaml(sp), "metrics": False, "kind": kind}
